@@ -148,10 +148,10 @@ static void hexs(char *o, const unsigned char *b, int n) { for (int i = 0; i < n
 static void case_line(const Case *c, char *o) {
     char dx[64], sx[64];
     hexs(dx, c->dx, c->dxn); hexs(sx, c->sx, c->sxn);
-    sprintf(o, "fn=%s pl=%c dn=%d do=%ld dm=%zu dh=%d db=%d dk=%d dl=%ld sn=%d so=%ld sk=%d sL=%ld st=%d sl=%zu sh=%d sb=%d c=%ld k=%ld on=%d dx=%s sx=%s",
+    sprintf(o, "fn=%s pl=%c dn=%d do=%ld dm=%zu dh=%d db=%d dk=%d dl=%ld sn=%d so=%ld sk=%d sL=%ld st=%d sl=%zu sh=%d sb=%d c=%ld k=%ld on=%d al=%d sf=%d dx=%s sx=%s",
             fntab[c->fn].name, c->place ? 'L' : 'R', c->d_null, c->d_obj, c->dmax, c->d_huge, c->d_bos, c->d_pk,
             c->d_pl, c->s_null, c->s_obj, c->s_k, c->s_len, c->s_term, c->slen, c->s_huge, c->s_bos, c->c, c->k,
-            c->o_null, dx, sx);
+            c->o_null, c->alias, c->s_off, dx, sx);
 }
 static int unhex(const char *s, unsigned char *b) {
     int n = 0; while (s[0] && s[1] && s[0] != ' ') { unsigned v; sscanf(s, "%2x", &v); b[n++] = v; s += 2; } return n;
@@ -181,6 +181,8 @@ static int parse_case(const char *line, Case *c) {
         else if (!strcmp(t, "c")) c->c = atol(e);
         else if (!strcmp(t, "k")) c->k = atol(e);
         else if (!strcmp(t, "on")) c->o_null = atoi(e);
+        else if (!strcmp(t, "al")) c->alias = atoi(e);
+        else if (!strcmp(t, "sf")) c->s_off = atoi(e);
         else if (!strcmp(t, "dx")) c->dxn = unhex(e, c->dx);
         else if (!strcmp(t, "sx")) c->sxn = unhex(e, c->sx);
     }
@@ -245,6 +247,7 @@ static void materialise(Ctx *x) {
     if (c->s_huge >= 2 && 0) { /* a src above the limit is still a real (small) object: only the size lies */ }
     {
         size_t off = obj_off(c->place, x->sbytes);
+        if (c->place == 0 && c->s_off) off -= c->s_off;   /* alignment sweep: not flush, the guard oracle is then the canary only */
         x->sh = slot[SL_S].h + off;
         x->sl_ = slot[SL_S].ro + off;
         if (c->place == 0) memset(x->sh - 128, 0xEE, 128); else memset(x->sh + x->sbytes, 0xEE, 128);
@@ -256,6 +259,7 @@ static void materialise(Ctx *x) {
         }
         memcpy(x->ssnap, x->sh, x->sbytes < sizeof x->ssnap ? x->sbytes : sizeof x->ssnap);
     }
+    if (c->alias && x->dh) { x->sh = x->dh; x->sbytes = x->dbytes; memcpy(x->ssnap, x->dsnap, x->dbytes < sizeof x->ssnap ? x->dbytes : sizeof x->ssnap); }
 }
 
 typedef long (*ufn)(long, long, long, long, long, long, long, long, long, long);
@@ -270,7 +274,7 @@ static void do_call(Ctx *x) {
     for (char *t = strtok(sig, " "); t; t = strtok(NULL, " ")) {
         long v = 0;
         if (!strcmp(t, "D") || !strcmp(t, "Q") || !strcmp(t, "M") || !strcmp(t, "K")) v = c->d_null ? 0 : (long)x->dl;
-        else if (!strcmp(t, "S") || !strcmp(t, "T")) v = c->s_null ? 0 : (long)x->sl_;
+        else if (!strcmp(t, "S") || !strcmp(t, "T")) v = c->s_null ? 0 : c->alias ? (long)x->dl : (long)x->sl_;
         else if (!strcmp(t, "n")) v = (long)c->dmax;
         else if (!strcmp(t, "l")) v = (long)c->slen;
         else if (!strcmp(t, "c")) v = c->c;
@@ -356,6 +360,7 @@ static void analyze(const Ctx *x, Ref *r) {
     if (nv) { r->verdict = V_FAIL; r->code = nv == 1 ? code : 0; return; }
     r->verdict = V_ANY;
     if (c->d_huge == 1 || c->s_huge == 1) return;   /* limit-sized operands: snapshots are partial, no reference */
+    if (c->alias && !(f->flags & F_QRY)) return;    /* identical pointers for a dest-writing function: judged by C07 */
     if (f->ref) f->ref(x, r);
 }
 
@@ -396,7 +401,8 @@ static const char *relclass(const Ctx *x, char *b) {
     if (hs && c->s_null) p += sprintf(p, "snull,");
     if (hs && has_tok(f, "l") && c->s_huge >= 2) p += sprintf(p, "slen>lim,");
     if (c->o_null) p += sprintf(p, "onull,");
-    if (p == b) {
+    if (c->alias) p += sprintf(p, "same-pointer,");
+    if (p == b || (c->alias && p == b + 13)) {
         if (c->d_huge == 1) p += sprintf(p, "dmax=lim,");
         if (hs) {
             if (has_tok(f, "S") && !c->s_term) p += sprintf(p, "sunterm,");
@@ -452,7 +458,7 @@ static void oracle(Ctx *x) {
             if (decl < x->dbytes && memcmp(x->dh + decl, x->dsnap + decl, x->dbytes - decl))
                 report(x, "canary-after-dmax|%s", relclass(x, b2));
         }
-        if (x->sh && memcmp(x->sh, x->ssnap, x->sbytes < sizeof x->ssnap ? x->sbytes : sizeof x->ssnap))
+        if (x->sh && !c->alias && memcmp(x->sh, x->ssnap, x->sbytes < sizeof x->ssnap ? x->sbytes : sizeof x->ssnap))
             report(x, "source-modified|%s", relclass(x, b2));
         return;
     }
@@ -476,7 +482,11 @@ static void oracle(Ctx *x) {
         if (!(f->flags & F_CE) || !usable) return;
         if (!(failed > 0 || x->h_n > 0)) return;
         int code = x->h_n ? x->h_code[0] : fcode;
-        if (eget(x->dh, f->w, 0) != 0) { report(x, "dest0-nonzero|code%d|%s", code, relclass(x, b2)); return; }
+        {   /* first element (or what fits of it into a byte-sized dmax) is zero */
+            size_t fb = c->dmax * f->dunit < (size_t)f->w ? c->dmax * f->dunit : (size_t)f->w; int nz = 0;
+            for (size_t i = 0; i < fb; i++) if (x->dh[i]) nz = 1;
+            if (nz) { report(x, "dest0-nonzero|code%d|%s", code, relclass(x, b2)); return; }
+        }
         long allz = 1;
         if (strcmp(g_variant, "prod")) nel = 0;   /* no-slack build: documented to clear only the first element */
         for (long i = 0; i < nel; i++) {
@@ -488,7 +498,7 @@ static void oracle(Ctx *x) {
         if (!strcmp(g_variant, "prod") && !(f->flags & F_CE1) && !allz && !entry_nospc &&
             (code == ESNOSPC_ || code == ESOVRLP_ || code == ESUNTERM_ || (code == ESNULLP_ && c->s_null)))
             report(x, "not-all-cleared|code%d|%s", code, relclass(x, b2));
-        if (x->sh && memcmp(x->sh, x->ssnap, x->sbytes < sizeof x->ssnap ? x->sbytes : sizeof x->ssnap))
+        if (x->sh && !c->alias && memcmp(x->sh, x->ssnap, x->sbytes < sizeof x->ssnap ? x->sbytes : sizeof x->ssnap))
             report(x, "source-modified|code%d|%s", code, relclass(x, b2));
         return;
     }
@@ -536,7 +546,7 @@ static void oracle(Ctx *x) {
             else if (has_tok(f, "oI")) got = (int)got;
             if (got != r->out) { report(x, "wrong-out|%s", relclass(x, b2)); return; }
         }
-        if (x->sh && memcmp(x->sh, x->ssnap, x->sbytes < sizeof x->ssnap ? x->sbytes : sizeof x->ssnap))
+        if (x->sh && !c->alias && memcmp(x->sh, x->ssnap, x->sbytes < sizeof x->ssnap ? x->sbytes : sizeof x->ssnap))
             report(x, "source-modified|%s", relclass(x, b2));
         if (P == 10 && x->dh && memcmp(x->dh, x->dsnap, x->dbytes < sizeof x->dsnap ? x->dbytes : sizeof x->dsnap))
             report(x, "operand-modified|%s", relclass(x, b2));
@@ -625,7 +635,7 @@ void gen_generic(int fi) {
     for (int extra = 0; extra < 2; extra++)
     for (int dbos = 0; dbos <= (has_bd ? 1 : 0); dbos++) {
         size_t dmax = dm[idm];
-        if (dmax * f->dunit % f->w) continue;            /* byte dmax must hold whole elements (truthful object) */
+        if (dmax * f->dunit % f->w && !(f->dunit == 1 && f->w > 1)) continue;   /* a byte dmax need not hold whole elements */
         long nel = dmax * f->dunit / f->w;
         /* prior dest contents */
         int npri = 0; struct { int pk; long pl; } pri[48];
@@ -699,12 +709,14 @@ void gen_generic(int fi) {
         for (int isl = 0; isl < nslv; isl++)
         for (int sbos = 0; sbos <= (has_bs ? 1 : 0); sbos++)
         for (int ion = 0; ion <= (has_o ? 1 : 0); ion++)
+        for (int al = 0; al <= (has_src ? 1 : 0); al++)
         for (int pk = 0; pk < 2; pk++) {
             if ((f->flags & F_NONULL) && (idn || isn)) continue;   /* no documented null-pointer constraint */
             memset(&c, 0, sizeof c);
             c.fn = fi; c.place = place; c.d_null = dnull_v[idn];
             c.dmax = dmv[idm].dmax; c.d_huge = dmv[idm].huge; c.d_bos = dbos;
-            if (!c.d_null && c.dmax && !c.d_huge && dbos != 2 && !isn && !slv[isl].huge && !ion) continue; /* part 1 */
+            if (!c.d_null && c.dmax && !c.d_huge && dbos != 2 && !isn && !slv[isl].huge && !ion && !al) continue; /* part 1 */
+            if (al && (idn || isn || dmv[idm].huge >= 2)) continue;                  /* aliasing needs two real pointers */
             if (c.d_huge >= 2) { c.d_obj = 0; if (dbos) continue; }
             else if (c.d_huge == 1) c.d_obj = c.dmax;
             else c.d_obj = c.dmax;
@@ -725,8 +737,9 @@ void gen_generic(int fi) {
             }
             if (!src_str) { c.s_len = c.s_obj; c.s_term = 0; }
             if ((f->flags & F_SAMELEN) && c.d_huge < 2) { c.s_obj = c.d_obj > 0 ? c.d_obj : 1; c.s_len = c.s_obj; }
-            c.o_null = ion; c.c = 'a'; c.k = 1;
-            emit(&c);
+            c.o_null = ion; c.c = 'a'; c.k = 1; c.alias = al;
+            if (al) { for (int q = 0; q < 4; q++) { static const size_t sq[4] = { 1, 2, 5, 4097 }; c.slen = sq[q]; c.s_huge = c.slen > fn_slimit(f) ? 2 : 0; emit(&c); if (!has_l) break; } }
+            else emit(&c);
         }
     }
 }
@@ -798,6 +811,61 @@ void gen_query(int fi) {
     }
 }
 
+
+/* word-unrolled primitives: every (start alignment, length) pair, every source alignment, byte fills
+ * around the sign bit: mem{cpy,move}{,16,32}_s wmem{cpy,move}_s mem{set,zero}{,16,32}_s */
+void gen_prims(int fi) {
+    const Fn *f = &fntab[fi];
+    if (!has_tok(f, "M")) return;
+    int copy = has_tok(f, "T"), set = has_tok(f, "k") && has_tok(f, "c"), zero = !copy && !set;
+    if (has_tok(f, "c") && copy) return;                     /* memccpy_s: not a plain primitive */
+    int maxlen = g_tier ? 160 : 72;
+    static const long fills[] = { 0x00, 0x5a, 0x80, 0xff, 0x8001, 0x80000001L };
+    Case c;
+    for (int len = 0; len <= maxlen; len++) {
+        if (len % f->w) continue;
+        for (int e = 0; e < 8; e++) {                        /* dest start alignment via trailing slack */
+            if (e % f->w && f->dunit != 1) continue;
+            if ((len + e) % f->dunit) continue;
+            for (int so = 0; so < (copy ? 8 : 1); so++) {
+                if (so % f->w) continue;
+                for (int fv = 0; fv < (set ? 6 : 1); fv++) {
+                    if (set && f->w == 1 && fills[fv] > 0xff) continue;
+                    if (set && f->w == 2 && fills[fv] > 0xffff) continue;
+                    memset(&c, 0, sizeof c);
+                    c.fn = fi; c.place = 0; c.d_pk = 0;
+                    if (f->dunit == 1) { c.dmax = len; c.d_obj = len + e; }
+                    else { c.dmax = len / f->dunit; c.d_obj = (len + e) / f->dunit; if (e % f->dunit) continue; }
+                    if (c.dmax == 0 && len) continue;
+                    if (copy) { c.slen = len / f->sunit; c.s_obj = c.slen ? c.slen : 1; c.s_len = c.slen; c.s_off = so; }
+                    if (set) { c.c = fills[fv]; c.k = len / f->w; }
+                    if (zero) { /* dmax is the count */ }
+                    if (c.dmax == 0) continue;
+                    emit(&c);
+                }
+            }
+        }
+    }
+}
+/* long memory comparisons: two differences of opposite order inside one word, all positions */
+void gen_longcmp(int fi) {
+    const Fn *f = &fntab[fi];
+    if (!has_tok(f, "K") || !(has_tok(f, "T"))) return;
+    Case c;
+    for (int len = 5; len <= 20; len++) for (int p = 0; p < len; p++) for (int q = p; q < len; q++) for (int ord = 0; ord < 4; ord++) {
+        memset(&c, 0, sizeof c);
+        c.fn = fi; c.place = 0; c.dmax = len; c.d_obj = len; c.d_pk = 2; c.s_k = 2;
+        c.dxn = c.sxn = len > 24 ? 24 : len;
+        for (int i = 0; i < len && i < 24; i++) { c.dx[i] = 0x40 + i; c.sx[i] = 0x40 + i; }
+        if (len > 24) continue;
+        c.dx[p] = (ord & 1) ? 0x10 : 0xf0; c.sx[p] = (ord & 1) ? 0xf0 : 0x10;
+        if (q != p) { c.dx[q] = (ord & 2) ? 0x10 : 0xf0; c.sx[q] = (ord & 2) ? 0xf0 : 0x10; }
+        c.s_obj = len; c.s_len = len; c.slen = len;
+        if (f->flags & F_SAMELEN) c.slen = 0;
+        emit(&c);
+    }
+}
+
 /* ---------------------------------------------------------------- main */
 extern void fntab_init(void *lib);
 static void usage(void) { fprintf(stderr, "usage: cat run|replay ...\n"); exit(2); }
@@ -847,6 +915,8 @@ int main(int argc, char **argv) {
         if (P == 10 || ((fntab[i].flags & F_QRY) && (P == 2 || P == 5) && getenv("CAT_QALPHA"))) gen_query(i);
         else gen_generic(i);
         if ((fntab[i].flags & F_QRY) && (P == 2)) gen_query(i);
+        if (P == 1 || P == 2 || P == 6 || P == 12) gen_prims(i);
+        if (P == 10 || P == 2) gen_longcmp(i);
         printf("{\"t\":\"fn\",\"fn\":\"%s\",\"evaluations\":%ld}\n", fntab[i].name, n_eval - e0);
     }
     if (!found) { fprintf(stderr, "unknown function %s\n", fname); return 2; }
